@@ -15,7 +15,7 @@ RULE = ('Hypothesis: client kind (tcp, serial rtu / ascii / binary, udp, RTU- an
         'frames, honours retry_on_empty / retry_on_invalid when a valid reply is scripted within the budget after only empty / '
         'foreign attempts, and the follow-up over the now healthy transport returns its own correct reply (values unique per '
         'transaction). Sweep: ALL scripts of length <= 2 (thorough: 3) over the behaviours x retry settings x client kinds. '
-        'Non-trivial: >=1 faulty transmission; distinct by SHA-1.')
+        'Non-trivial: >=1 faulty transmission; distinct by SHA-1. Serial clients are also built with generated options: handle_local_echo on a line that echoes every written byte, strict on/off, baud rate 9600..115200.')
 ASSUMPTIONS = ['failure to establish a connection is excepted by the property: the fake transport always connects',
                'virtual time: every wait happens on the harness clock; a transport-operation budget of 100000 stands for "hangs"',
                'binary transactions whose frames contain delimiter bytes are excluded (KF-BINARY-FRAMER-DELIMITER-BYTES)']
@@ -44,7 +44,8 @@ def _case(draw):
     k2, f2 = draw(c08._request())
     return {'client': client, 'retries': draw(st.integers(0, 3)), 'retry_on_empty': draw(st.booleans()),
             'retry_on_invalid': draw(st.booleans()), 'backoff': draw(st.sampled_from([0.3, 0.3, 0.1, 1.0])),
-            'unit': draw(st.integers(1, 247)), 'kind': k, 'fields': f, 'script': script, 'follow': [k2, f2]}
+            'unit': draw(st.integers(1, 247)), 'kind': k, 'fields': f, 'script': script, 'follow': [k2, f2],
+            'serial': draw(transports.serial_options()) if client in ('rtu', 'ascii', 'binary') else {}}
 
 
 def strategy(tier):
@@ -143,7 +144,7 @@ class FaultPeer(transports.Peer):
         return None
 
 
-def _mk_client(kind, case):
+def _mk_client(kind, case, w=None):
     from pymodbus.client.sync import ModbusTcpClient, ModbusSerialClient, ModbusUdpClient
     kw = dict(retries=case['retries'], retry_on_empty=case['retry_on_empty'], retry_on_invalid=case['retry_on_invalid'],
               backoff=case['backoff'], timeout=1)
@@ -154,7 +155,8 @@ def _mk_client(kind, case):
     if kind in ('tcp+rtu', 'tcp+ascii'):
         from pymodbus.transaction import ModbusRtuFramer, ModbusAsciiFramer
         return ModbusTcpClient('peer', 502, framer=ModbusRtuFramer if kind == 'tcp+rtu' else ModbusAsciiFramer, **kw)
-    return ModbusSerialClient(method=kind, port='/dev/null', baudrate=19200, **kw)
+    kw.update(transports.serial_kwargs(w, case.get('serial')))
+    return ModbusSerialClient(method=kind, port='/dev/null', **kw)
 
 
 def run_case(case):
@@ -175,7 +177,9 @@ def run_case(case):
     peer = FaultPeer(framing, case['script'], 1.0)
     nt = any(b[0] not in ('reply',) for b in case['script'])
     with transports.World(peer) as w:
-        client = _mk_client(ckind, case)
+        client = _mk_client(ckind, case, w)
+        if case.get('serial'):
+            labels.append('serial-opts:' + ','.join('%s=%s' % kv for kv in sorted(case['serial'].items())))
         t0 = w.clock.t
         req = kinds.build(case['kind'], case['fields'], unit=case['unit'])
         result = None
